@@ -53,7 +53,7 @@ Feed2(e1, e2) == LET r1 == ScopeApply(pst, Stamp(e1))
 Rec(h, x) == IF RecordHist THEN Append(h, x) ELSE h
 Boot == [K EXCEPT !.ready = [i \in 1..NT |-> HStep(i)]]
 H(t, c, a, b, d) == [w |-> "t", t |-> t, c |-> c, a |-> a, b |-> b, d |-> d, at |-> K.nh]
-HE(t, c) == [w |-> "e", t |-> t, c |-> c, a |-> 0, b |-> 0, d |-> 0, at |-> K.nh]
+HE(t, c) == [w |-> "e", t |-> t, c |-> c, a |-> 0, b |-> 0, d |-> 0, at |-> K.nh, cyc |-> K.cycle]
 
 ExcName(r) == IF ~IsExc(r) THEN "none" ELSE IF IsAnyioCancel(r) THEN "cancel"
               ELSE IF IsCancel(r) THEN "native" ELSE "err"
